@@ -178,6 +178,10 @@ BATCH_SOLVERS = [
 ]
 
 
+# solvers cheap enough per point for the 12 006-point request (the others cost 1-20 ms per point)
+LARGE_OK = {"Noh", "Cog8", "IGEOS", "GenEOS", "Blake", "Rod1D", "Hutchens1", "Noh2", "Cog1", "PlanarSandwich", "EPpiston"}
+
+
 def tasks(tier, seed):
     out = []
     for fam in family_alphabets(tier):
@@ -377,6 +381,11 @@ def batch_variants(base, far):
     out.append(("superset-first", [far] + list(base)))
     out.append(("superset-middle", list(base[:2]) + [far] + list(base[2:])))
     out.append(("reversed", list(base)[::-1]))
+    # a LARGE request (12 001 more points spread over the span of the base): an internal grid that absorbs the request only below some
+    # size makes a point's value depend on how many companions it has (seeded change S4-C06-3); 1-D requests only
+    if not isinstance(base[0], (list, tuple)):
+        lo, hi = min(base), max(base)
+        out.append(("large", list(base) + [lo + (hi - lo) * (i + 0.5) / 12001.0 for i in range(12001)]))
     return out
 
 
@@ -387,6 +396,8 @@ def run_batch(task):
     name, cls, cfg, base, far, t, mode = [b for b in BATCH_SOLVERS if b[0] == task["solver"]][0]
     cls_name = cls
     variants = batch_variants(base, far)
+    if name not in LARGE_OK:
+        variants = [(k, p) for k, p in variants if k != "large"]
     if name == "Mader":
         # Mader documents its input as a grid: N >= 2 ascending points (dx = (x[-1]-x[0])/N; a single point gives NaN,
         # pinned by its own test-suite docstring); orderings/duplicates are not grids
